@@ -2063,7 +2063,9 @@ class _GroupElem(ABC):
             # This matrix can be used to project points with (x, y, z) coordinates into the element's (i, j, k) coordinate system.
             matrixType = MatrixType.mass
             jacobian_e_pg = self.Get_jacobian_e_pg(matrixType, absoluteValues=False)
-            invF_e_pg = self.Get_invF_e_pg(matrixType)
+            # plain array: a (dim, dim) slice of a FeArray is still typed FeArray and would be
+            # re-read as an (Ne, nPg) field when the number of query points equals dim
+            invF_e_pg = np.asarray(self.Get_invF_e_pg(matrixType))
             dN_tild = self._dN()
             xiOrigin = self.origin  # origin of the reference element (ξ0,η0)
 
